@@ -127,75 +127,375 @@ theorem walkSeq_compose (t : Table) (c1 c2 c12 : Cfg) :
     | panic s => rw [hx] at h; simp at h
 end
 
-/-! ### `ComposeAt` for the string-valued attributes, from the string-level laws -/
+/-! ### `ComposeAt` holds at every node, for every resolver -/
+
+theorem insert_overwrite (k : String) (v v' : Val) (m : Val.KVs) :
+    Val.insert k v (Val.insert k v' m) = Val.insert k v m := by
+  induction m with
+  | nil => simp [Val.insert]
+  | cons e r ih =>
+    obtain ⟨k', w⟩ := e
+    by_cases h : k = k'
+    · simp [Val.insert, h]
+    · simp [Val.insert, h, ih]
+
+/-- the string source of a bind mount, if that is what the mount is -/
+def mountSrc (kvs : Val.KVs) : Option String :=
+  match Val.lookup "type" kvs with
+  | some (.str "bind") =>
+    match Val.lookup "source" kvs with
+    | some (.str s) => some s
+    | _ => none
+  | _ => none
+
+theorem absVolumeMount_of_src (c : Cfg) (kvs : Val.KVs) (s : String) (h : mountSrc kvs = some s) :
+    absVolumeMount c (.map kvs) =
+      (maybeUnixStr c s.toList).map (fun r => .map (Val.insert "source" (.str (String.ofList r)) kvs)) := by
+  unfold mountSrc at h
+  split at h
+  · rename_i hty
+    split at h
+    · rename_i s' hs
+      simp only [Option.some.injEq] at h
+      subst h
+      simp [absVolumeMount, hty, hs]
+    · cases h
+  · cases h
+
+theorem absVolumeMount_of_nosrc (c c' : Cfg) (kvs : Val.KVs) (h : mountSrc kvs = none) :
+    absVolumeMount c (.map kvs) = absVolumeMount c' (.map kvs) := by
+  unfold mountSrc at h
+  simp only [absVolumeMount]
+  split at h
+  · rename_i hty
+    split at h
+    · cases h
+    · rename_i hns
+      simp only [hty]
+      cases hs : Val.lookup "source" kvs with
+      | none => rfl
+      | some x =>
+        cases x with
+        | str s => exact absurd hs (hns s)
+        | _ => rfl
+  · rename_i hnt
+    split
+    · rename_i hty; exact absurd hty (hnt)
+    · rfl
+
+theorem mountSrc_insert (kvs : Val.KVs) (s r : String) (h : mountSrc kvs = some s) :
+    mountSrc (Val.insert "source" (.str r) kvs) = some r := by
+  unfold mountSrc at h
+  split at h
+  · rename_i hty
+    have h1 : Val.lookup "type" (Val.insert "source" (.str r) kvs) = some (.str "bind") := by
+      rw [lookup_insert_ne _ _ _ _ (by decide)]; exact hty
+    simp [mountSrc, h1, lookup_insert_self]
+  · cases h
+
+/-- the options and device of a local bind volume, if that is what the volume is -/
+def volDev (kvs : Val.KVs) : Option (Val.KVs × Val) :=
+  match Val.lookup "driver" kvs with
+  | some (.str "local") =>
+    match Val.lookup "driver_opts" kvs with
+    | some (.map opts) =>
+      match Val.lookup "o" opts, Val.lookup "device" opts with
+      | some (.str "bind"), some dev => some (opts, dev)
+      | _, _ => none
+    | _ => none
+  | _ => none
+
+theorem volumeDriverOpts_of_dev (c : Cfg) (kvs opts : Val.KVs) (dev : Val) (h : volDev kvs = some (opts, dev)) :
+    volumeDriverOpts c (.map kvs) =
+      (maybeUnixPath c dev).map (fun d => .map (Val.insert "driver_opts" (.map (Val.insert "device" d opts)) kvs)) := by
+  unfold volDev at h
+  split at h
+  · rename_i hdr
+    split at h
+    · rename_i o hopts
+      split at h
+      · rename_i dv ho hdev
+        simp only [Option.some.injEq, Prod.mk.injEq] at h
+        obtain ⟨rfl, rfl⟩ := h
+        simp [volumeDriverOpts, hdr, hopts, ho, hdev]
+      · cases h
+    · cases h
+  · cases h
+
+theorem volumeDriverOpts_of_nodev (c c' : Cfg) (kvs : Val.KVs) (h : volDev kvs = none) :
+    volumeDriverOpts c (.map kvs) = volumeDriverOpts c' (.map kvs) := by
+  unfold volDev at h
+  simp only [volumeDriverOpts]
+  split at h
+  · rename_i hdr
+    simp only [hdr]
+    split at h
+    · rename_i o hopts
+      simp only [hopts]
+      split at h
+      · cases h
+      · rename_i hno
+        split
+        · rename_i dv ho hdev; exact (hno dv ho hdev).elim
+        · rfl
+    · rename_i hnm
+      cases hs : Val.lookup "driver_opts" kvs with
+      | none => rfl
+      | some x =>
+        cases x with
+        | map o => exact absurd hs (hnm o)
+        | _ => rfl
+  · rename_i hnt
+    split
+    · rename_i hdr; exact absurd hdr hnt
+    · rfl
+
+theorem volDev_insert (kvs opts : Val.KVs) (dev d : Val) (h : volDev kvs = some (opts, dev)) :
+    volDev (Val.insert "driver_opts" (.map (Val.insert "device" d opts)) kvs) = some (Val.insert "device" d opts, d) := by
+  unfold volDev at h
+  split at h
+  · rename_i hdr
+    split at h
+    · rename_i o hopts
+      split at h
+      · rename_i dv ho hdev
+        simp only [Option.some.injEq, Prod.mk.injEq] at h
+        obtain ⟨rfl, rfl⟩ := h
+        have h1 : Val.lookup "driver" (Val.insert "driver_opts" (.map (Val.insert "device" d o)) kvs) = some (.str "local") := by
+          rw [lookup_insert_ne _ _ _ _ (by decide)]; exact hdr
+        have h2 : Val.lookup "o" (Val.insert "device" d o) = some (.str "bind") := by
+          rw [lookup_insert_ne _ _ _ _ (by decide)]; exact ho
+        simp [volDev, h1, lookup_insert_self, h2]
+      · cases h
+    · cases h
+  · cases h
+
+theorem absSymbolicLink_eq_absPath (c : Cfg) (hs : c.sym = some) (v : Val) : absSymbolicLink c v = absPath c v := by
+  cases v with
+  | str s => simp [absSymbolicLink, absPath, hs, okStr]
+  | seq xs =>
+    simp only [absSymbolicLink]
+    cases h : absPath c (.seq xs) with
+    | ok w =>
+      simp only [absPath] at h
+      obtain ⟨ys, _, rfl⟩ := Out.map_ok _ _ _ h
+      rfl
+    | err e => rfl
+    | panic s => rfl
+  | null => simp [absSymbolicLink, absPath]
+  | bool _ => simp [absSymbolicLink, absPath]
+  | int _ => simp [absSymbolicLink, absPath]
+  | float _ => simp [absSymbolicLink, absPath]
+  | map _ => simp [absSymbolicLink, absPath]
 
 section
 variable (home : Option Str) (remote : Str → Bool) (W R : Str)
   (hW : W ≠ []) (hR : R ≠ []) (hRr : isAbs R = false)
 include hW hR hRr
 
-theorem composeAt_absPath (s : String)
-    (hplain : tilde (absPathStr ⟨R, home, remote, some⟩ s.toList) = false) :
-    ComposeAt ⟨R, home, remote, some⟩ ⟨W, home, remote, some⟩ ⟨join W R, home, remote, some⟩ "absPath" (.str s) := by
-  intro v1 h
-  simp only [applyResolver, if_true, absPath, Out.ok.injEq] at h
-  subst h
-  simp only [applyResolver, if_true, absPath, String.toList_ofList,
-    absPathStr_compose home remote some W R s.toList hW hR hRr hplain]
-
-theorem composeAt_absSymbolicLink (s : String)
-    (hplain : tilde (absPathStr ⟨R, home, remote, some⟩ s.toList) = false) :
-    ComposeAt ⟨R, home, remote, some⟩ ⟨W, home, remote, some⟩ ⟨join W R, home, remote, some⟩ "absSymbolicLink" (.str s) := by
-  intro v1 h
-  have e : ∀ (c : Cfg) (x : String), c.sym = some → applyResolver c "absSymbolicLink" (.str x) =
-      .ok (.str (String.ofList (absPathStr c x.toList))) := by
-    intro c x hc
-    simp [applyResolver, absSymbolicLink, absPath, hc, okStr]
-  rw [e _ _ rfl] at h
-  simp only [Out.ok.injEq] at h
-  subst h
-  rw [e _ _ rfl, e _ _ rfl]
-  simp only [String.toList_ofList, absPathStr_compose home remote some W R s.toList hW hR hRr hplain]
-
-theorem composeAt_absContextPath (s : String)
-    (hplain : tilde (absContextStr ⟨R, home, remote, some⟩ s.toList) = false)
-    (hlocal : urlLike s.toList = false → urlLike (absContextStr ⟨R, home, remote, some⟩ s.toList) = false) :
-    ComposeAt ⟨R, home, remote, some⟩ ⟨W, home, remote, some⟩ ⟨join W R, home, remote, some⟩ "absContextPath" (.str s) := by
-  intro v1 h
-  have e : ∀ (c : Cfg) (x : String), applyResolver c "absContextPath" (.str x) =
-      .ok (.str (String.ofList (absContextStr c x.toList))) := by
-    intro c x
-    simp [applyResolver, absContextPath, okStr]
-  rw [e] at h
-  simp only [Out.ok.injEq] at h
-  subst h
-  rw [e, e]
-  simp only [String.toList_ofList]
-  congr 3
-  cases hu : urlLike s.toList with
-  | true => rw [absContextStr_url _ _ hu, absContextStr_url _ _ hu, absContextStr_url _ _ hu]
-  | false =>
-    have h2 := hlocal hu
-    rw [absContextStr_local _ _ hu] at hplain h2 ⊢
-    rw [absContextStr_local _ _ h2, absContextStr_local _ _ hu]
-    exact absPathStr_compose home remote some W R s.toList hW hR hRr hplain
-
-theorem composeAt_maybeUnixPath (s : String) (m : Str)
-    (h1 : maybeUnixStr ⟨R, home, remote, some⟩ s.toList = .ok m)
-    (hplain : tilde m = false ∧ (isAbs (expandUser home s.toList) = false →
-      isWindowsAbs? (expandUser home s.toList) = some false → isWindowsAbs? m = some false)) :
-    ComposeAt ⟨R, home, remote, some⟩ ⟨W, home, remote, some⟩ ⟨join W R, home, remote, some⟩ "maybeUnixPath" (.str s) := by
-  intro v1 h
-  have e : ∀ (c : Cfg) (x : String), applyResolver c "maybeUnixPath" (.str x) =
-      (maybeUnixStr c x.toList).map (fun r => .str (String.ofList r)) := by
-    intro c x
-    simp [applyResolver, maybeUnixPath]
-  rw [e, h1] at h
-  simp only [Out.map, Out.ok.injEq] at h
-  subst h
-  rw [e, e]
-  simp only [String.toList_ofList]
-  rw [maybeUnixStr_compose home remote some W R s.toList m hW hR hRr h1 hplain]
+mutual
+theorem absPath_compose : ∀ (v v1 : Val), absPath (Cfg.mk R home remote some) v = .ok v1 → absPath (Cfg.mk W home remote some) v1 = absPath (Cfg.mk (join W R) home remote some) v
+  | .str s, v1, h => by
+    simp only [absPath, Out.ok.injEq] at h
+    subst h
+    simp only [absPath, String.toList_ofList, absPathStr_compose home remote some W R s.toList hW hR hRr]
+  | .seq xs, v1, h => by
+    simp only [absPath] at h
+    obtain ⟨xs1, hx, rfl⟩ := Out.map_ok _ _ _ h
+    simp only [absPath, absPathList_compose xs xs1 hx]
+  | .null, _, h => by simp [absPath] at h
+  | .bool _, _, h => by simp [absPath] at h
+  | .int _, _, h => by simp [absPath] at h
+  | .float _, _, h => by simp [absPath] at h
+  | .map _, _, h => by simp [absPath] at h
+theorem absPathList_compose : ∀ (xs xs1 : List Val), absPathList (Cfg.mk R home remote some) xs = .ok xs1 → absPathList (Cfg.mk W home remote some) xs1 = absPathList (Cfg.mk (join W R) home remote some) xs
+  | [], xs1, h => by
+    simp only [absPathList, Out.ok.injEq] at h
+    subst h; rfl
+  | x :: r, xs1, h => by
+    simp only [absPathList] at h
+    cases hx : absPath (Cfg.mk R home remote some) x with
+    | ok x1 =>
+      rw [hx] at h
+      simp only at h
+      obtain ⟨r1, hr, rfl⟩ := Out.map_ok _ _ _ h
+      simp only [absPathList, absPath_compose x x1 hx, absPathList_compose r r1 hr]
+    | err e => rw [hx] at h; simp at h
+    | panic s => rw [hx] at h; simp at h
 end
+
+theorem maybeUnixPath_compose (v v1 : Val) (h : maybeUnixPath (Cfg.mk R home remote some) v = .ok v1) :
+    maybeUnixPath (Cfg.mk W home remote some) v1 = maybeUnixPath (Cfg.mk (join W R) home remote some) v := by
+  cases v with
+  | str s =>
+    simp only [maybeUnixPath] at h
+    obtain ⟨m, hm, rfl⟩ := Out.map_ok _ _ _ h
+    simp only [maybeUnixPath, String.toList_ofList, maybeUnixStr_compose home remote some W R s.toList m hW hR hRr hm]
+  | _ => simp [maybeUnixPath] at h
+
+theorem absContextPath_compose (hhome : ∀ h, home = some h → h ≠ []) (v v1 : Val) (h : absContextPath (Cfg.mk R home remote some) v = .ok v1) :
+    absContextPath (Cfg.mk W home remote some) v1 = absContextPath (Cfg.mk (join W R) home remote some) v := by
+  cases v with
+  | str s =>
+    simp only [absContextPath, okStr, Out.ok.injEq] at h
+    subst h
+    simp only [absContextPath, okStr, String.toList_ofList,
+      absContextStr_compose home remote some W R s.toList hW hR hRr hhome]
+  | _ => simp [absContextPath] at h
+
+theorem absExtendsPath_compose (hrem : ∀ x, remote x = false) (v v1 : Val) (h : absExtendsPath (Cfg.mk R home remote some) v = .ok v1) :
+    absExtendsPath (Cfg.mk W home remote some) v1 = absExtendsPath (Cfg.mk (join W R) home remote some) v := by
+  cases v with
+  | str s =>
+    simp only [absExtendsPath, okStr, Out.ok.injEq] at h
+    subst h
+    simp only [absExtendsPath, okStr, String.toList_ofList, absExtendsStr, hrem, Bool.false_eq_true, if_false,
+      absPathStr_compose home remote some W R s.toList hW hR hRr]
+  | _ => simp [absExtendsPath] at h
+
+theorem absVolumeMount_compose (v v1 : Val) (h : absVolumeMount (Cfg.mk R home remote some) v = .ok v1) :
+    absVolumeMount (Cfg.mk W home remote some) v1 = absVolumeMount (Cfg.mk (join W R) home remote some) v := by
+  cases v with
+  | map kvs =>
+    cases hm : mountSrc kvs with
+    | none =>
+      have hv1 : v1 = .map kvs := by
+        rcases absVolumeMount_shape _ kvs v1 h with rfl | ⟨hty, s, r, hs, _, _⟩
+        · rfl
+        · simp [mountSrc, hty, hs] at hm
+      subst hv1
+      exact absVolumeMount_of_nosrc _ _ kvs hm
+    | some s =>
+      rw [absVolumeMount_of_src _ kvs s hm] at h
+      obtain ⟨r, hr, rfl⟩ := Out.map_ok _ _ _ h
+      rw [absVolumeMount_of_src _ kvs s hm,
+        absVolumeMount_of_src _ _ _ (mountSrc_insert kvs s (String.ofList r) hm)]
+      simp only [String.toList_ofList, maybeUnixStr_compose home remote some W R s.toList r hW hR hRr hr]
+      cases maybeUnixStr (Cfg.mk (join W R) home remote some) s.toList <;> simp [Out.map, insert_overwrite]
+  | null => simp only [absVolumeMount, Out.ok.injEq] at h; subst h; rfl
+  | bool _ => simp only [absVolumeMount, Out.ok.injEq] at h; subst h; rfl
+  | int _ => simp only [absVolumeMount, Out.ok.injEq] at h; subst h; rfl
+  | float _ => simp only [absVolumeMount, Out.ok.injEq] at h; subst h; rfl
+  | str _ => simp only [absVolumeMount, Out.ok.injEq] at h; subst h; rfl
+  | seq _ => simp only [absVolumeMount, Out.ok.injEq] at h; subst h; rfl
+
+theorem volumeDriverOpts_compose (v v1 : Val) (h : volumeDriverOpts (Cfg.mk R home remote some) v = .ok v1) :
+    volumeDriverOpts (Cfg.mk W home remote some) v1 = volumeDriverOpts (Cfg.mk (join W R) home remote some) v := by
+  cases v with
+  | map kvs =>
+    cases hm : volDev kvs with
+    | none =>
+      have hv1 : v1 = .map kvs := by
+        rcases volumeDriverOpts_shape _ kvs v1 h with rfl | ⟨hdr, opts, dev, d, hopts, ho, hdev, _, _⟩
+        · rfl
+        · simp [volDev, hdr, hopts, ho, hdev] at hm
+      subst hv1
+      exact volumeDriverOpts_of_nodev _ _ kvs hm
+    | some od =>
+      obtain ⟨opts, dev⟩ := od
+      rw [volumeDriverOpts_of_dev _ kvs opts dev hm] at h
+      obtain ⟨d1, hd1, rfl⟩ := Out.map_ok _ _ _ h
+      rw [volumeDriverOpts_of_dev _ kvs opts dev hm,
+        volumeDriverOpts_of_dev _ _ _ _ (volDev_insert kvs opts dev d1 hm),
+        maybeUnixPath_compose home remote W R hW hR hRr dev d1 hd1]
+      cases maybeUnixPath (Cfg.mk (join W R) home remote some) dev <;> simp [Out.map, insert_overwrite]
+  | null => simp only [volumeDriverOpts, Out.ok.injEq] at h; subst h; rfl
+  | bool _ => simp [volumeDriverOpts] at h
+  | int _ => simp [volumeDriverOpts] at h
+  | float _ => simp [volumeDriverOpts] at h
+  | str _ => simp [volumeDriverOpts] at h
+  | seq _ => simp [volumeDriverOpts] at h
+
+/-- **at every node, for every resolver**: the second stage composes with the first
+(default loader: no remote resource loaders; no symbolic links) -/
+theorem composeAt_all (hhome : ∀ h, home = some h → h ≠ []) (hrem : ∀ x, remote x = false) (hn : String) (v : Val) :
+    ComposeAt (Cfg.mk R home remote some) (Cfg.mk W home remote some) (Cfg.mk (join W R) home remote some) hn v := by
+  intro v1 h
+  unfold applyResolver at h ⊢
+  split
+  · rename_i e; simp only [e, if_true] at h; exact absPath_compose home remote W R hW hR hRr v v1 h
+  rename_i e1; simp only [e1, if_false] at h
+  split
+  · rename_i e; simp only [e, if_true] at h; exact absContextPath_compose home remote W R hW hR hRr hhome v v1 h
+  rename_i e2; simp only [e2, if_false] at h
+  split
+  · rename_i e; simp only [e, if_true] at h; exact absExtendsPath_compose home remote W R hW hR hRr hrem v v1 h
+  rename_i e3; simp only [e3, if_false] at h
+  split
+  · rename_i e; simp only [e, if_true] at h
+    rw [absSymbolicLink_eq_absPath _ rfl] at h ⊢
+    rw [absSymbolicLink_eq_absPath _ rfl]
+    exact absPath_compose home remote W R hW hR hRr v v1 h
+  rename_i e4; simp only [e4, if_false] at h
+  split
+  · rename_i e; simp only [e, if_true] at h; exact absVolumeMount_compose home remote W R hW hR hRr v v1 h
+  rename_i e5; simp only [e5, if_false] at h
+  split
+  · rename_i e; simp only [e, if_true] at h; exact maybeUnixPath_compose home remote W R hW hR hRr v v1 h
+  rename_i e6; simp only [e6, if_false] at h
+  split
+  · rename_i e; simp only [e, if_true] at h; exact volumeDriverOpts_compose home remote W R hW hR hRr v v1 h
+  rename_i e7; simp only [e7, if_false] at h
+  cases h
+end
+
+/-- `RowsOK P` holds for every tree when `P` holds everywhere -/
+theorem rowsOK_of_forall (P : String → Val → Prop) (hP : ∀ h v, P h v) (t : Table) :
+    (∀ p v, RowsOK P t p v) ∧ (∀ p kvs, RowsOKKVs P t p kvs) ∧ (∀ p xs, RowsOKSeq P t p xs) := by
+  have key : ∀ n : Nat, (∀ p v, sizeOf v ≤ n → RowsOK P t p v) := by
+    intro n
+    induction n with
+    | zero => intro p v hv; cases v <;> simp at hv <;> omega
+    | succ n ih =>
+      intro p v hv
+      have hk : ∀ (kvs : List (String × Val)) p, sizeOf kvs ≤ n → RowsOKKVs P t p kvs := by
+        intro kvs
+        induction kvs with
+        | nil => intro p _; simp [RowsOKKVs]
+        | cons e r ihr =>
+          intro p hs
+          obtain ⟨k, w⟩ := e
+          simp only [RowsOKKVs]
+          simp only [List.cons.sizeOf_spec, Prod.mk.sizeOf_spec] at hs
+          exact ⟨ih _ w (by omega), ihr p (by omega)⟩
+      have hq : ∀ (xs : List Val) p, sizeOf xs ≤ n → RowsOKSeq P t p xs := by
+        intro xs
+        induction xs with
+        | nil => intro p _; simp [RowsOKSeq]
+        | cons w r ihr =>
+          intro p hs
+          simp only [RowsOKSeq]
+          simp only [List.cons.sizeOf_spec] at hs
+          exact ⟨ih _ w (by omega), ihr p (by omega)⟩
+      cases v with
+      | map kvs =>
+        simp only [RowsOK]
+        split
+        · exact hP _ _
+        · simp only [Val.map.sizeOf_spec] at hv; exact hk kvs p (by omega)
+      | seq xs =>
+        simp only [RowsOK]
+        split
+        · exact hP _ _
+        · simp only [Val.seq.sizeOf_spec] at hv; exact hq xs p (by omega)
+      | null => simp only [RowsOK]; split; exact hP _ _; trivial
+      | bool _ => simp only [RowsOK]; split; exact hP _ _; trivial
+      | int _ => simp only [RowsOK]; split; exact hP _ _; trivial
+      | float _ => simp only [RowsOK]; split; exact hP _ _; trivial
+      | str _ => simp only [RowsOK]; split; exact hP _ _; trivial
+  refine ⟨fun p v => key (sizeOf v) p v (Nat.le_refl _), ?_, ?_⟩
+  · intro p kvs
+    induction kvs with
+    | nil => simp [RowsOKKVs]
+    | cons e r ihr =>
+      obtain ⟨k, w⟩ := e
+      simp only [RowsOKKVs]
+      exact ⟨key (sizeOf w) _ w (Nat.le_refl _), ihr⟩
+  · intro p xs
+    induction xs with
+    | nil => simp [RowsOKSeq]
+    | cons w r ihr =>
+      simp only [RowsOKSeq]
+      exact ⟨key (sizeOf w) _ w (Nat.le_refl _), ihr⟩
 
 end CV.Paths
